@@ -301,6 +301,7 @@ struct Gen {
     // what goes wrong: 0 size too big, 1 count*size overflow, 2 bad alignment
     std::vector<unsigned> w = { 4, has_c ? 5u : 0u, has_a ? 5u : 0u }; size_t what = ch.weighted(w);
     size_t n = ch.range(1, 4096), c = 1, a = (size_t)1 << ch.range(3, 12), o = 0;
+    if (what == 0 && has_a && ch.chance(1, 3)) a = (size_t)1 << ch.range(13, 27);   // (sizes near SIZE_MAX together with alignments up to several segments)
     if (what == 0) { n = edge_value((int)ch.pick(6)); if (has_c) { static const std::vector<size_t> cs = { 1, 1, 2, 3 }; c = ch.of(cs); } }
     else if (what == 1) {
       switch (ch.pick(5)) {
@@ -317,6 +318,7 @@ struct Gen {
     }
     if (f.find("_at") != std::string::npos) o = ch.chance(1, 2) ? 0 : ch.range(0, 4096);
     op.s("f", f).u("n", n); if (has_c) op.u("c", c); if (has_a) op.u("a", a); if (o) op.u("o", o); if (is_re) op.u("s", (uint64_t)s);
+    if ((f == "reallocarray" || f == "reallocarr") && ch.chance(1, 2)) op.u("se", 1);
     int h = pick_heap_api(); bool heapable = !(f == "new_nothrow" || f == "valloc" || f == "pvalloc" || f == "posix_memalign" || f == "memalign" || f == "aligned_alloc" || f == "new_aligned_nothrow" || f == "reallocarray" || f == "reallocarr" || f == "aligned_recalloc");
     if (h && heapable) op.u("h", (uint64_t)h);
     out.push_back(op);
